@@ -16,7 +16,7 @@ func Check(id, tier string) int {
 		return 2
 	}
 	switch id {
-	case "C01", "C02", "C03", "C04", "C05", "C06", "C07", "C08", "C09", "C10", "C14", "C20":
+	case "C01", "C02", "C03", "C04", "C05", "C06", "C07", "C08", "C09", "C10", "C14", "C19", "C20":
 		return CheckCodec(cfg, tier)
 	}
 	fmt.Fprintf(os.Stderr, "verif: no driver for %s\n", id)
@@ -38,7 +38,7 @@ func ReplayFile(file string) int {
 		return 2
 	}
 	switch rp.Property {
-	case "C01", "C02", "C03", "C04", "C05", "C06", "C07", "C08", "C09", "C10", "C14", "C20":
+	case "C01", "C02", "C03", "C04", "C05", "C06", "C07", "C08", "C09", "C10", "C14", "C19", "C20":
 		return replayCodec(&rp, file)
 	}
 	fmt.Fprintf(os.Stderr, "verif: no replay driver for %s\n", rp.Property)
@@ -76,6 +76,12 @@ func replayCodec(rp *proto.Replay, file string) int {
 	}
 	if cfg := Props[rp.Property]; cfg != nil && (cfg.TextOnly || cfg.NoProgs) {
 		specs = nil
+	}
+	if cfg := Props[rp.Property]; cfg != nil && cfg.CLI {
+		if err := buildCLIs(w); err != nil {
+			fmt.Fprintln(os.Stderr, "verif:", err)
+			return 2
+		}
 	}
 	_, node, err := w.BuildPrograms(specs, genInstr, nil)
 	if err != nil {
